@@ -64,6 +64,7 @@ def tc_rules():
     r = base_rules()
     r.add("R2.saves", r"\bt_saves\.(enabled|saves)\b", r"t_saves->\1")
     r.add("R9.vec", r"\bstd::vector<Boxed_Value> ret;", "size_t ret = 0;")
+    r.add("R9.vec_copy", r"\bstd::vector<Boxed_Value> ret\(t_saves->saves\);", "size_t ret = t_saves->saves; /* copy of the list, seen as its length */")
     r.add("R9.swap", r"\bstd::swap\(ret, t_saves->saves\);", "VERIF_SWAP(ret, t_saves->saves);")
     return r
 
